@@ -658,6 +658,14 @@ func runC18Soups(w *hx.Worker, c *c18ctx, bodies []string) {
 					continue
 				}
 				if werr != nil {
+					// the same parser meeting the same invalid literal again must reject it again
+					var g2 *G18
+					var err2 error
+					hx.Guard(func() { g2, err2 = p.ParseString("", text) })
+					if err != nil && err2 == nil {
+						w.Violate(hx.Violation{Key: key, Class: "invalid-escape-accepted-on-second-parse", Detail: map[string]any{"got": fmt.Sprintf("%q", g2.V), "first_error": err.Error()}})
+						continue
+					}
 					if err == nil {
 						w.Violate(hx.Violation{Key: key, Class: "invalid-escape-accepted", Detail: map[string]any{"got": fmt.Sprintf("%q", g.V), "strconv": werr.Error()}})
 						continue
